@@ -30,6 +30,9 @@ static void fuzz_printf(const std::string &f) {
 		switch(c) { case S_INT: slots.push_back(x % 30); break; case S_CHAR: slots.push_back('a' + x % 26); break; case S_STR: slots.push_back((uint64_t)g_narrow->data()); break; case S_WSTR: slots.push_back((uint64_t)g_wide->data()); break; case S_PTR: slots.push_back(x); break; }
 	}
 	if(mixed) huge = true;
+	// a '*' in a format that also has n$ directives takes its width from wherever frigg's argument cursor stands - possibly a
+	// pointer-valued slot, i.e. up to 2^31 pad characters (12 s per input, found as libFuzzer "slow units"): clamp, as above
+	if(P.any_positional && f.find('*') != std::string::npos) huge = true;
 	std::string z = f; z.push_back('\0');
 	GuardedBuf gf(z.data(), z.size());
 	run_frigg(gf.data(), slots, huge, hash_str(f) & 1);
